@@ -44,7 +44,41 @@ fn extra_line(rng: &mut Rng, h: &[Op], p: usize) -> (Vec<u8>, &'static str, Vec<
         text_bias: false,
         types: vec![],
     };
-    match rng.below(10) {
+    let big = |rng: &mut Rng| -> Vec<u8> {
+        // a payload beyond the 384-byte capacity of the no-alloc build
+        let n = rng.range(385, 460);
+        (0..n).map(|_| armor_char(rng.below(64) as u8)).collect()
+    };
+    match rng.below(13) {
+        10 => {
+            // irregular numbering with a valid checksum: fragment 0, count 0, number beyond count
+            let (n, k) = *rng.pick(&[(2u8, 0u8), (3, 0), (1, 0), (0, 1), (0, 0), (0, 2), (1, 2), (1, 3), (2, 3), (2, 255), (255, 0)]);
+            let id = match rng.below(3) {
+                0 => None,
+                1 => recent.and_then(|l| l.sent.as_ref().unwrap().id),
+                _ => Some(*rng.pick(&[0u8, 1, 9, 10, 255])),
+            };
+            (make_line(ADDR, n, k, id, b"A", b"15M", 0), "irregular-numbering", vec![Fault::RewriteHeader])
+        }
+        11 => {
+            // an over-long fragment that does not continue the open group (wrong id, or the
+            // right id with a wrong number, or the right number with a wrong id)
+            let (n, k, id) = match recent.and_then(|l| l.sent.as_ref()) {
+                Some(s) => match rng.below(3) {
+                    0 => (s.n.max(3), s.k.saturating_add(1).max(2), Some(s.id.map(|v| ((v as u32 + 1) % 10) as u8).unwrap_or(3))),
+                    1 => (s.n.max(s.k.saturating_add(2)), s.k.saturating_add(2), s.id),
+                    _ => (s.n.max(2), s.k.max(2), s.id),
+                },
+                None => (3, 2, Some(rng.below(10) as u8)),
+            };
+            let p = big(rng);
+            (make_line(ADDR, n, k, id, b"A", &p, 0), "oversize-out-of-sequence-fragment", vec![Fault::RewriteHeader])
+        }
+        12 => {
+            // an over-long unfragmented sentence
+            let p = big(rng);
+            (make_line(ADDR, 1, 1, None, b"B", &p, rng.below(6) as u8), "oversize-unfragmented", vec![])
+        }
         9 => {
             // a valid fragment 1 with an unusual id or count: accepted by a correct parser
             // (then the premise fails and nothing is judged); a parser that rejects it for
